@@ -80,9 +80,19 @@ Cleaned == /\ Ev.ev = "cleaned"
            /\ Ev.h \in DOMAIN latest
            /\ UNCHANGED <<acc, newest, latest>>
 
+(*   {"ev":"refusedsetup","h":H,"side":S,"kind":K,"on":O,"via":V,"call":C,"outcome":"refused"|"abandoned","err":E}      *)
+(*        a key set-up on the receiver's session that is in use (server side in place as the hello handler does it,    *)
+(*        client side, a derivation) was REFUSED part-way or abandoned: unsupported key-exchange type, share of the    *)
+(*        wrong size, low-order share, completion of an exchange that is not open ...  The session's keys stay in      *)
+(*        place, so the frames it has accepted under them are frames it has accepted: nothing changes.  (A set-up      *)
+(*        that goes through is a new key epoch: `reset`.)                                                              *)
+RefusedSetup == /\ Ev.ev = "refusedsetup"
+                /\ Ev.h \in DOMAIN acc
+                /\ UNCHANGED <<acc, newest, latest>>
+
 TraceNext == /\ l <= Len(Trace)
              /\ l' = l + 1
-             /\ (Reset \/ Check \/ TCheck \/ OwnSend \/ NoKeys \/ Forged \/ Cleaned)
+             /\ (Reset \/ Check \/ TCheck \/ OwnSend \/ NoKeys \/ Forged \/ Cleaned \/ RefusedSetup)
 
 TraceSpec == TraceInit /\ [][TraceNext]_tvars
 
